@@ -132,16 +132,40 @@ def check(prop, tier, seed, jobs, worlds=None, wall=None, keep=False):
     for s in range(nsh):
         out = os.path.join(tmp, f"shard{s}.jsonl")
         p, f = spawn(["run", "--prop", prop, "--tier", tier, "--seed", str(seed), "--shard", str(s), "--nshards", str(nsh),
-                      "--worlds", str(worlds), "--deadline", str(deadline), "--out", out], hs[s], out + ".log")
+                      "--worlds", str(worlds), "--deadline", str(deadline), "--out", out,
+                      "--stop-file", os.path.join(tmp, "STOP")], hs[s], out + ".log")
         procs.append((p, f, out))
     hard = deadline + 330
     harness = []
+    early = os.environ.get("COMASIM_EARLY_STOP") == "1"
+    known0 = load_known()
+    offsets = {}
+    while any(p.poll() is None for p, f, out in procs) and time.time() < hard:
+        time.sleep(1.0)
+        if not early or os.path.exists(os.path.join(tmp, "STOP")):
+            continue
+        for p, f, out in procs:         # an unlisted violation anywhere ends the run early
+            try:
+                with open(out) as fh:
+                    fh.seek(offsets.get(out, 0))
+                    chunk = fh.read()
+                    if not chunk.endswith("\n"):
+                        chunk = chunk[:chunk.rfind("\n") + 1]
+                    offsets[out] = offsets.get(out, 0) + len(chunk.encode())
+                for ln in chunk.splitlines():
+                    d = json.loads(ln)
+                    if any(match_known(known0, prop, v) is None for v in d.get("report", {}).get("violations", [])):
+                        open(os.path.join(tmp, "STOP"), "w").close()
+            except (OSError, ValueError):
+                pass
     for p, f, out in procs:
-        try:
-            p.wait(timeout=max(1, hard - time.time()))
-        except subprocess.TimeoutExpired:
+        if p.poll() is None:
             harness.append(f"shard {out} exceeded the hard wall limit")
         kill_group(p)
+        try:
+            p.wait(timeout=10)
+        except subprocess.TimeoutExpired:
+            pass
         f.close()
     # ---- aggregate
     lines, summaries = [], []
